@@ -208,6 +208,28 @@ def bounded(ctx, b):
                 p.feed(doc)
                 return p.ok and not p.stack, {"writer": "SAMIWriter", "unbalanced": doc[-500:]}
             b.guard(("markup", W.__name__, i), markup, sample={"writer": W.__name__})
+    # spans in different layouts: DFXP paragraphs whose spans sit in different regions (each span within
+    # nodes of one layout), written as WebVTT - one cue per layout, tags balanced in every cue, same marking
+    tmpl = ('<?xml version="1.0" encoding="utf-8"?><tt xml:lang="en" xmlns="http://www.w3.org/ns/ttml" '
+            'xmlns:tts="http://www.w3.org/ns/ttml#styling"><head><layout>'
+            '<region xml:id="a" tts:origin="10% 10%" tts:extent="30% 30%"/><region xml:id="b" tts:origin="20% 70%" tts:extent="30% 20%"/>'
+            '</layout></head><body><div><p begin="00:00:00.000" end="00:00:01.000">%s</p></div></body></tt>')
+    spans = {"plain_a": '<span region="a">one</span>', "italic_b": '<span region="b" tts:fontStyle="italic">two</span>',
+             "plain_b": '<span region="b">three</span>', "italic_a": '<span region="a" tts:fontStyle="italic">four</span>',
+             "bold_b": '<span region="b" tts:fontWeight="bold" tts:fontStyle="italic">five</span>'}
+    import itertools as _it
+    for combo in list(_it.permutations(spans, 2)) + [("plain_a", "italic_b", "plain_a"), ("italic_a", "italic_b", "plain_b")]:
+        def layouts(combo=combo):
+            import warnings
+            warnings.filterwarnings("ignore")
+            cs2 = DFXPReader().read(tmpl.replace("%s", "".join(spans[k] for k in combo)))
+            doc = WebVTTWriter().write(cs2)
+            got = webvtt_flags(doc)
+            want_italic = "".join(w for k, w in (("italic_b", "two"), ("italic_a", "four"), ("bold_b", "five")) if k in combo for _ in [0])
+            marked = "".join(ch for fl, _ in got for ch, f in fl if f and f[0])
+            ok = all(okk for _, okk in got) and sorted(marked) == sorted(want_italic)
+            return ok, {"spans": combo, "italic_characters": marked, "expected": want_italic, "doc": doc[-400:]}
+        b.guard(("span-layouts", combo), layouts, sample={"spans": combo})
     # every caption returned by any reader has balanced style nodes
     readers = {"dfxp": DFXPReader, "sami": SAMIReader, "scc": SCCReader}
     for fmt, docs in samples.all_docs().items():
@@ -280,6 +302,8 @@ def run(ctx):
     import props.C11_italics as IT
     SP.prove_span_balance(ctx)
     IT.prove_passes(ctx)
+    import props.C03_lines as LN
+    LN.prove_cue_lines(ctx)
     ctx.bounded("scc_italics", "every sequence of up to 5 (thorough: 6) instruction nodes over {text, italics on, italics off, "
                 "reposition, break}: after _format_italics the ON / OFF nodes alternate, are closed before every "
                 "repositioning and at the end, and exactly the text nodes sent while italics were on are italic",
